@@ -178,13 +178,14 @@ def ls_reference(codes):
 
 def replay_c12(prop, job, tests, out, save):
     bindir = build_helpers(prop)
-    k = int(job.name.rsplit("_", 1)[1])
+    m = re.search(r"ls_(codes|reject)_(\d+)(?:_at_(\d+))?$", job.name)
+    k = int(m.group(2))
     for t in tests[:3]:
         vals = [v[0] if len(v) == 1 else int.from_bytes(bytes(v), "little") for v in runner.decode_values(t["code"])]
-        if len(vals) < k + 1:
+        if len(vals) < k:
             continue
         codes = vals[:k]
-        fail_at = vals[k]
+        fail_at = int(m.group(3)) if m.group(1) == "reject" else k
         fields = [str(c) for c in codes]
         if fail_at < k:
             fields[fail_at] = "x"
